@@ -8,7 +8,7 @@ sys.path.insert(0, HERE)
 import glob  # noqa: E402
 import importlib  # noqa: E402
 
-from manifest_data import CLAIMED, NOT_APPLICABLE, SOURCE_COMMITS  # noqa: E402
+from manifest_data import CLAIMED, ENTRY_POINT_STAGES, NOT_APPLICABLE, SOURCE_COMMITS  # noqa: E402
 
 CHECKS = {}
 for path in sorted(glob.glob(os.path.join(HERE, 'harness', 'c[0-9][0-9].py'))):
@@ -34,7 +34,8 @@ for pid in ALL:
         'replay_cmd_template': f'./check {pid} --replay {{path}}',
         'engine': 'coq-proof+correspondence',
         'level_claimed': {'category': 'proof', 'text': c['text'], 'design_ref': c.get('design_ref', f'DESIGN.md §5 {pid}')},
-        'level_note': c['note'],
+        'level_note': c['note'] + (('  Implementation-side stages beyond the modelled kernels (oracle / differential runs, not '
+                                   'theorems): ' + ENTRY_POINT_STAGES[pid] + '.') if pid in ENTRY_POINT_STAGES else ''),
         'technique': c['technique'],
     })
 na = [{'property_id': pid, 'reason': NOT_APPLICABLE[pid]} for pid in ALL if pid not in CHECKS]
